@@ -110,6 +110,27 @@ impl<A: DecoderArithmetic> Decoder<A> {
     }
 }
 
+#[cfg(feature = "verif-hooks")]
+impl<A: DecoderArithmetic> Decoder<A> {
+    /// Verification hook: overwrites every value cell of the decoder state
+    /// (variable LLRs and check message values, never a destination tag) with
+    /// caller-supplied values.
+    pub fn verif_havoc(
+        &mut self,
+        mut var_llr: impl FnMut() -> A::VarLlr,
+        mut check_message: impl FnMut() -> A::CheckMessage,
+    ) {
+        for x in self.llrs.iter_mut() {
+            *x = var_llr();
+        }
+        for msgs in self.check_messages.per_source.iter_mut() {
+            for m in msgs.iter_mut() {
+                m.value = check_message();
+            }
+        }
+    }
+}
+
 impl<A: DecoderArithmetic> LdpcDecoder for Decoder<A> {
     fn decode(
         &mut self,
